@@ -156,6 +156,8 @@ class Lockstep:
         self.last_probe = None
         self.last_query = None
         self.step_hooks = []
+        self.pre_hooks = []
+        self.post_hooks = []
 
     # ---- plumbing
     def fail(self, sub, real, msg):
@@ -198,7 +200,11 @@ class Lockstep:
         try:
             for op in ops:
                 self.log.append(op)
+                for h in self.pre_hooks:
+                    h(self, op)
                 getattr(self, "op_" + op[0])(*op[1:])
+                for h in self.post_hooks:  # run before anything reads the databases again
+                    h(self, op)
                 self.check_contents()
                 for h in self.step_hooks:
                     h(self, op)
